@@ -57,7 +57,7 @@ DECKS = [
     # 6 a deck that raises (unknown surface type)
     ('raises', 'bad deck\n1 0 -1 imp:n=1\n2 0 1 imp:n=0\n\n1 qq 5\n\n', []),
 ]
-OPTS = [[], ['--skip-deduplication'], ['--always-inline-filling', '--always-inline-filled']]
+OPTS = [[], ['--skip-deduplication'], ['--always-inline-filling', '--always-inline-filled'], ['--max-inline-score', '10']]
 FIXED = len(DECKS)
 
 
